@@ -8,7 +8,7 @@ import sys
 import time
 from typing import Any, List
 
-from mc import runner
+from mc import findings, runner
 from mc.gen import atoms as A
 from mc.gen import spaces
 
@@ -107,6 +107,16 @@ def worker(item: Any, res: runner.Result) -> None:  # pylint: disable=too-many-l
     res.sample({"program": src, "contexts": [[l, list(s), list(i)] for l, s, i in outcome]})
 
 
+_ATTR = None
+
+
+def attribute(entry: Any, v: Any) -> bool:
+    global _ATTR  # pylint: disable=global-statement
+    if _ATTR is None:
+        _ATTR = findings.by_repair(worker, lambda it: it[1], lambda it, s: (it[0], s))
+    return _ATTR(entry, v)
+
+
 def main(argv: List[str]) -> int:
     tier, seed = runner.tier_and_seed(argv)
     t0 = time.time()
@@ -126,7 +136,6 @@ def main(argv: List[str]) -> int:
         PROP, tier, seed, "model_checking", total, t0, cov,
         ["reference AVM + O2 abstract reachability are the trusted base",
          "exactness is demanded on direct-check programs only; multi-context blocks are bracketed (exact <= tealer <= context-insensitive)"],
-        attribute=None,
     )
 
 
